@@ -8,75 +8,75 @@ VERIF = os.path.dirname(os.path.abspath(__file__))
 P = {
  "C01": dict(
   technique="property-based testing (rapid): grammar-based + mutation-based string generation against a reference recogniser; coverage-guided native fuzzing in the thorough tier",
-  text="Generated-input search against an independent membership oracle. 250k strings per quick run (30% valid by construction, 50% 1-3 structured edits of a valid vector with 18 mutation operators covering every grammar position, 10% cross-version token soup, 10% raw bytes), each offered to all four parsers; the oracle is a split-based recogniser written from the grammar in the property, cross-checked against anchored regular expressions. Plus, every run, the COMPLETE one-edit neighbourhood (every byte deleted / replaced / inserted from a 61-byte alphabet, every truncation, every element deleted / duplicated anywhere / moved anywhere / swapped, empty elements, 25 header shapes) of 17 representative vectors covering every layout (about 173,000 strings) and every order-preserving subsequence of the v2 metric list / every subset of the v3 and v4 base metrics (about 43,000 strings). Also asserts the result shape (object xor error) and no panic. Thorough: 16 shards x 1.5M strings plus 150 s of coverage-guided fuzzing with the oracle inside the target. Sampling of an infinite language: no completeness claim.",
+  text="Generated-input search against an independent membership oracle. 250k strings per quick run (30% valid by construction, 50% 1-3 structured edits of a valid vector with 18 mutation operators covering every grammar position, 10% cross-version token soup, 10% raw bytes), each offered to all four parsers; the oracle is a split-based recogniser written from the grammar in the property, cross-checked against anchored regular expressions. Plus, every run, the COMPLETE one-edit neighbourhood (every byte deleted / replaced / inserted from a 61-byte alphabet, every truncation, every element deleted / duplicated anywhere / moved anywhere / swapped, empty elements, 25 header shapes) of 17 representative vectors covering every layout (about 173,000 strings) and every order-preserving subsequence of the v2 metric list / every subset of the v3 and v4 base metrics (about 43,000 strings). Also asserts the result shape (object xor error) and no panic. Thorough: 16 shards x 1.5M strings plus 150 s of coverage-guided fuzzing with the oracle inside the target. Sampling of an infinite language: no completeness claim. Additionally, exhaustively: every representative vector with, at every element, the value replaced by every pooled value and the abbreviation by every pooled abbreviation (about 2,700 tokens: real tokens of all versions, case variants, NUL/padding/length-mod-256 disguises, characters whose code point truncates to a legal byte, value lists joined by separators, M-prefixed abbreviations). A second process runs the same check built for GOARCH=386 (32-bit int/uint) on a sampled workload with another seed.",
   note="Trusted base: spec/grammar.go (reference recognisers). rapid v1.3.0 for generation/shrinking.", ref="4 C01"),
  "C02": dict(
   technique="stateful property-based testing (rapid operation histories) with a round-trip oracle; exhaustive pair grids; complete v2 enumeration in the thorough tier",
-  text="Histories of up to 64 Set calls (legal, illegal, unknown metric) from the zero value or a parsed vector, round trip checked after every step: Vector() must be well-formed by the reference grammar (so a Vector/Parse pair wrong in the same way is still caught), ParseVector must accept it, result == object and equal on every Get. Plus every ordered pair of (metric,value) settings on 5 backgrounds for each version (exhaustive), and all 139,968,000 v2.0 objects in the thorough tier.",
+  text="Histories of up to 64 Set calls (legal, illegal, unknown metric) from the zero value or a parsed vector, round trip checked after every step: Vector() must be well-formed by the reference grammar (so a Vector/Parse pair wrong in the same way is still caught), ParseVector must accept it, result == object and equal on every Get. Plus every ordered pair of (metric,value) settings on 5 backgrounds for each version (exhaustive), and all 139,968,000 v2.0 objects in the thorough tier. Exhaustively every base x temporal/threat combination of every version built by Set and round-tripped (thorough: x every security-requirement combination, 16.6M objects per v3.x version, 26.9M for v4.0) - this contains the all-zero object and any single object a table could special-case. A second process runs the same check built for GOARCH=386 (32-bit int/uint) on a sampled workload with another seed.",
   note="Trusted base: spec/grammar.go. History length bounded by 64 (state is <= 9 bytes; any state is one Set per metric away).", ref="4 C02"),
  "C03": dict(
   technique="complete enumeration of the effective class space against an exact (math/big.Rat) executable specification; rapid lifts into the raw space",
-  text="All 16,588,800 effective classes of v3.0 and of v3.1 (2,592 base x CR/IR/AR x E/RL/RC) are evaluated on every run - twice: with the effective values in the base metrics, and with every Modified metric holding the effective value over different base values, so that every mod() call is exercised in both directions - and BaseScore, TemporalScore, EnvironmentalScore compared exactly, Impact/Exploitability within 1e-9, against the FIRST equations evaluated in rational arithmetic (each version with its own ModifiedImpact formula). Every base combination x every pair of Modified metric values (exhaustive, 1.4 million cases per version), a Modified-metric grid and 50k random raw assignments lift the result to the raw space. exhaustive=true for the class part.",
+  text="All 16,588,800 effective classes of v3.0 and of v3.1 (2,592 base x CR/IR/AR x E/RL/RC) are evaluated on every run - twice: with the effective values in the base metrics, and with every Modified metric holding the effective value over different base values, so that every mod() call is exercised in both directions - and BaseScore, TemporalScore, EnvironmentalScore compared exactly, Impact/Exploitability within 1e-9, against the FIRST equations evaluated in rational arithmetic (each version with its own ModifiedImpact formula). Every base combination x every pair of Modified metric values (exhaustive, 1.4 million cases per version), a Modified-metric grid and 50k random raw assignments lift the result to the raw space. exhaustive=true for the class part. Every score is asked for twice on the same object (a memo with a lossy encoding shows on the second call). Corner space: every subset of the Modified metrics explicit at an extreme x every spelling of CR/IR/AR x {X,first,last} of E/RL/RC x 2 base backgrounds (1.77M cases per version). A second process runs the same check built for GOARCH=386 (32-bit int/uint) on a sampled workload with another seed.",
   note="Trusted base: spec/score3.go (weights and equations transcribed from the specifications; self-tests show real-number Roundup == Appendix A algorithm on the whole domain).", ref="4 C03"),
  "C04": dict(
   technique="complete enumeration of the 15,116,544 effective classes against an exact integer-arithmetic executable specification; rapid lifts with corner profiles",
-  text="Every effective class (all 270 MacroVectors reached) is scored on every run, twice (effective values in the base metrics; in the Modified metrics over different base values), and compared exactly with the section 8.2 algorithm written over metric letters (exact fraction of tenths, rounded half-up). Every base combination x every single Modified metric value (exhaustive, 3.9 million cases) and 50k random raw objects with Modified overrides, explicit X, supplemental metrics and the two all-None corner profiles lift the result. Found two genuine defects (F1, F2), both repaired by fix: commits.",
+  text="Every effective class (all 270 MacroVectors reached) is scored on every run, twice (effective values in the base metrics; in the Modified metrics over different base values), and compared exactly with the section 8.2 algorithm written over metric letters (exact fraction of tenths, rounded half-up). Every base combination x every single Modified metric value (exhaustive, 3.9 million cases) and 50k random raw objects with Modified overrides, explicit X, supplemental metrics and the two all-None corner profiles lift the result. Found two genuine defects (F1, F2), both repaired by fix: commits. Score is asked for twice on each object in the first walk. Corner space: every subset of the 11 Modified metrics explicit at their most / least severe value x every spelling (incl. X) of E/CR/IR/AR x 2 base backgrounds (2.1M cases). A second process runs the same check built for GOARCH=386 (32-bit int/uint) on a sampled workload with another seed.",
   note="Trusted base: spec/score4.go and the frozen 270-entry lookup table spec/v4lookup.go (SHA-256 pinned; depths recomputed by enumeration; 866,384 exact ties as the property states; oracle monotone on all 149,905,728 neighbour pairs).", ref="4 C04"),
  "C05": dict(
   technique="complete enumeration of all 139,968,000 v2.0 assignments against an exact (math/big.Rat) executable specification with tie sets",
-  text="Every v2.0 assignment is scored on every run; BaseScore/TemporalScore/EnvironmentalScore must be a member of the oracle's set of conforming values (two values where an exact half-way tie occurs anywhere in the nested roundings, as the statement allows), Impact/Exploitability within 1e-9. exhaustive=true.",
+  text="Every v2.0 assignment is scored on every run; BaseScore/TemporalScore/EnvironmentalScore must be a member of the oracle's set of conforming values (two values where an exact half-way tie occurs anywhere in the nested roundings, as the statement allows), Impact/Exploitability within 1e-9. exhaustive=true. EnvironmentalScore is asked for twice in a row on every assignment and must answer the same. A second process runs the same check built for GOARCH=386 (32-bit int/uint) on a sampled workload with another seed.",
   note="Trusted base: spec/score2.go (guide section 3.2 equations).", ref="4 C05"),
  "C06": dict(
   technique="property-based testing (rapid): vectors built by construction from a known assignment; oracle = the generator's assignment / the reference parser",
-  text="60k vectors per version per quick run, built from a known assignment (all v2 layouts incl. all-ND and one-defined groups, shuffled v3 order, explicit X, every U spelling); after ParseVector every Get must return the written value or ND/X. The C01 string mix filtered through the reference parser adds non-constructed accepted strings, and an exhaustive grid (every ordered pair of metrics x every pair of values; for v3 the pair is written first, in that order) exposes a Set that disturbs an earlier-written metric. Coverage requirement enforced: every (metric,value) pair written and every optional metric omitted at least once, else the run is inconclusive.",
+  text="60k vectors per version per quick run, built from a known assignment (all v2 layouts incl. all-ND and one-defined groups, shuffled v3 order, explicit X, every U spelling); after ParseVector every Get must return the written value or ND/X. The C01 string mix filtered through the reference parser adds non-constructed accepted strings, and an exhaustive grid (every ordered pair of metrics x every pair of values; for v3 the pair is written first, in that order) exposes a Set that disturbs an earlier-written metric. Coverage requirement enforced: every (metric,value) pair written and every optional metric omitted at least once, else the run is inconclusive.  A second process runs the same check built for GOARCH=386 (32-bit int/uint) on a sampled workload with another seed.",
   note="Trusted base: spec/tables.go, spec/grammar.go. Conditional on acceptance (rejection of a valid vector is C01's).", ref="4 C06"),
  "C07": dict(
   technique="model-based stateful property testing (rapid histories against a map model) plus exhaustive ordered pair grids",
-  text="Histories of up to 64 Set calls checked against a model map after every step (all Gets equal the model; failed Set leaves the object == its copy; Set succeeds exactly for legal pairs). The final assignment is rebuilt on a fresh object in a random order after random detours and via ParseVector of another spelling: all three must be ==. Every ordered pair ((m1,v1),(m2,v2)) on 5 backgrounds per version is enumerated exhaustively (catches a mask one bit too wide against every neighbour value).",
+  text="Histories of up to 64 Set calls checked against a model map after every step (all Gets equal the model; failed Set leaves the object == its copy; Set succeeds exactly for legal pairs). The final assignment is rebuilt on a fresh object in a random order after random detours and via ParseVector of another spelling: all three must be ==. Every ordered pair ((m1,v1),(m2,v2)) on 5 backgrounds per version is enumerated exhaustively (catches a mask one bit too wide against every neighbour value).  A second process runs the same check built for GOARCH=386 (32-bit int/uint) on a sampled workload with another seed.",
   note="Trusted base: spec/tables.go (legal pairs).", ref="4 C07"),
  "C08": dict(
   technique="property-based testing (rapid): non-canonical valid spellings against a reference canonical serialiser",
-  text="60k vectors per version biased to non-canonical spellings (explicit X, shuffled v3, all-ND and partially-ND v2 groups); ParseVector(s).Vector() must equal the reference canonical form of the known assignment, be accepted, and be a fixed point. Also on the C01 string mix filtered by the reference parser.",
+  text="60k vectors per version biased to non-canonical spellings (explicit X, shuffled v3, all-ND and partially-ND v2 groups); ParseVector(s).Vector() must equal the reference canonical form of the known assignment, be accepted, and be a fixed point. Also on the C01 string mix filtered by the reference parser. Exhaustively every base x temporal/threat combination of every version in canonical spelling (thorough: x every security-requirement combination). A second process runs the same check built for GOARCH=386 (32-bit int/uint) on a sampled workload with another seed.",
   note="Trusted base: spec.Canon (spec/grammar.go).", ref="4 C08"),
  "C09": dict(
   technique="property-based testing (rapid) of (abbreviation,value) offers against table membership; invariant checking over generated histories; native fuzzing of Get/Set in the thorough tier",
-  text="150k offers per quick run from pools of every version's abbreviations/values, case variants, padded, empty, raw bytes: Get succeeds iff the abbreviation is a metric of the version, Set iff additionally the value is legal; a failed Set leaves the object unchanged; plus the exhaustive grid of every pooled abbreviation x every pooled value (incl. the long names used in the specification texts) on two objects per version. Well-formedness invariant (every Get legal and non-empty, Vector() grammatical, every scoring method / Rating / Nomenclature returns without panic) on the zero value and after every step of 20k histories.",
+  text="150k offers per quick run from pools of every version's abbreviations/values, case variants, padded, empty, raw bytes: Get succeeds iff the abbreviation is a metric of the version, Set iff additionally the value is legal; a failed Set leaves the object unchanged; plus the exhaustive grid of every pooled abbreviation x every pooled value (incl. the long names used in the specification texts) on two objects per version. Well-formedness invariant (every Get legal and non-empty, Vector() grammatical, every scoring method / Rating / Nomenclature returns without panic) on the zero value and after every step of 20k histories. The pools hold about 1,200 abbreviations and 1,500 values (disguises of every real token: NUL bytes, padding to 4/8 bytes, 256 extra bytes, a character whose code point truncates to a legal byte, value lists joined by separators, M-prefixed abbreviations); the grid is 14.8M offers. A second process runs the same check built for GOARCH=386 (32-bit int/uint) on a sampled workload with another seed.",
   note="Trusted base: spec/tables.go, spec/grammar.go.", ref="4 C09"),
  "C10": dict(
   technique="metamorphic property-based testing (rapid) plus an exhaustive metric x value grid",
-  text="Five metamorphic relations between objects with the same effective values (explicit copy of the base value into an X Modified metric; change of an overridden base metric; v3 base/temporal under environmental changes; X <-> specification default; v4 supplemental metrics) on 150k generated objects with corner profiles (incl. base-impacts-None and effective-impacts-None), plus the exhaustive grid metric x base value x modified value x other base value on 20 backgrounds.",
+  text="Five metamorphic relations between objects with the same effective values (explicit copy of the base value into an X Modified metric; change of an overridden base metric; v3 base/temporal under environmental changes; X <-> specification default; v4 supplemental metrics) on 150k generated objects with corner profiles (incl. base-impacts-None and effective-impacts-None), plus the exhaustive grid metric x base value x modified value x other base value on 20 backgrounds.  A second process runs the same check built for GOARCH=386 (32-bit int/uint) on a sampled workload with another seed.",
   note="The relation is between two runs of the implementation (that is what the property states); C03/C04 anchor the values.", ref="4 C10"),
  "C11": dict(
   technique="complete enumeration of all class spaces with a shape predicate; rapid lifts",
-  text="After every Set step of 6k operation histories per version (objects on which a metric was set repeatedly), and every scoring method on all 139,968,000 v2 assignments, 2 x 16,588,800 v3 classes and 15,116,544 v4 classes, every run: finite, bit-exact nearest float64 to k/10, 0<=k<=100 (v2 EnvironmentalScore: k<=100 only, as stated), Rating accepts it. 60k raw lifts with corner profiles. exhaustive=true for the class part.",
+  text="After every Set step of 6k operation histories per version (objects on which a metric was set repeatedly), and every scoring method on all 139,968,000 v2 assignments, 2 x 16,588,800 v3 classes and 15,116,544 v4 classes, every run: finite, bit-exact nearest float64 to k/10, 0<=k<=100 (v2 EnvironmentalScore: k<=100 only, as stated), Rating accepts it. 60k raw lifts with corner profiles. exhaustive=true for the class part. Corner spaces of v3.0, v3.1 and v4.0 as in C03/C04 (every subset of the Modified metrics explicit at an extreme x requirement/temporal/threat spellings incl. X). A second process runs the same check built for GOARCH=386 (32-bit int/uint) on a sampled workload with another seed.",
   note="No oracle needed beyond the predicate in the statement.", ref="4 C11"),
  "C12": dict(
   technique="complete enumeration of neighbour graphs (metamorphic relation score(more severe) >= score(less severe))",
-  text="All classes and all one-step neighbour pairs, with the undefined value (ND/X) of every defaulting metric as an extra level placed where it scores: v2 base+temporal (72,900 classes), v3.0 base+temporal (259,200), v3.1 base+temporal+environmental (16,588,800 classes), v4.0 (47,775,744 classes, about 500 million pairs), every run; exhaustive=true. v2/v3.0 environmental are outside the statement and not checked.",
+  text="All classes and all one-step neighbour pairs, with the undefined value (ND/X) of every defaulting metric as an extra level placed where it scores: v2 base+temporal (72,900 classes), v3.0 base+temporal (259,200), v3.1 base+temporal+environmental (16,588,800 classes), v4.0 (47,775,744 classes, about 500 million pairs), every run; exhaustive=true. v2/v3.0 environmental are outside the statement and not checked. Mixed carriers: the complete space of the Modified metrics (every value and X, X placed next to the base value it falls back to) over fixed base combinations - 4.6M classes per v4.0 base, 3.7M per v3.1 base; 3 bases per quick run (first values, last values, one rotating with the seed), 40 in the thorough tier - so every step expressed by defining a Modified metric on one side only is a checked pair. A second process runs the same check built for GOARCH=386 (32-bit int/uint) on a sampled workload with another seed.",
   note="Severity orders transcribed from the specifications (listed in the evidence assumptions).", ref="4 C12"),
  "C13": dict(
   technique="property-based testing (rapid): string mix, header transplants and Vector() outputs offered to all four parsers; native fuzzing in the thorough tier",
-  text="For every generated string, and for the complete one-edit neighbourhood of 17 representative vectors, the number of accepting parsers must be <= 1; the body of a valid vector is transplanted under 16 header shapes; Vector() of generated objects of each version must be accepted by that version only.",
+  text="For every generated string, and for the complete one-edit neighbourhood of 17 representative vectors, the number of accepting parsers must be <= 1; the body of a valid vector is transplanted under 16 header shapes; Vector() of generated objects of each version must be accepted by that version only. Exhaustively, Vector() of every base x temporal/threat combination of every version offered to all four parsers. A second process runs the same check built for GOARCH=386 (32-bit int/uint) on a sampled workload with another seed.",
   note="Implementation-only relation (count of acceptors); C01 anchors membership.", ref="4 C13"),
  "C14": dict(
   technique="randomised concurrent workloads compared with their sequential execution under the Go race detector; property-based history-independence and aliasing checks",
-  text="(a) probe call before/after an unrelated history that dirties the v2 split pool: identical results, parse results anchored to the reference parser; (b,c) Vector() strings immutable across further calls and GC, copies and repeated parses independent; (d) 80 workloads per GOMAXPROCS in {1,2,4,16} (2-24 goroutines, half of them focused on one function of one package) compared call by call with the sequential execution; (e) hot loops: one pure function (Rating, ParseVector, Vector, scores, Get) hammered by 2-16 goroutines for up to 2.4 million calls per case against precomputed results (finds lost updates in non-atomic caches that the race detector cannot see); (f) cold starts: for every (function, version) pair, fresh child processes whose very first calls are made concurrently by 16-48 goroutines and compared with the same calls made afterwards (finds lazily initialised state published before it is complete). Binary built with -race; a race report fails the check and the workload is the replay (re-run 50x). Interleavings are sampled, not enumerated: exploration only.",
+  text="(a) probe call before/after an unrelated history that dirties the v2 split pool: identical results, parse results anchored to the reference parser; (b,c) Vector() strings immutable across further calls and GC, copies and repeated parses independent; (d) 80 workloads per GOMAXPROCS in {1,2,4,16} (2-24 goroutines, half of them focused on one function of one package) compared call by call with the sequential execution; (e) hot loops: one pure function (Rating, ParseVector, Vector, scores, Get) hammered by 2-16 goroutines for up to 2.4 million calls per case against precomputed results (finds lost updates in non-atomic caches that the race detector cannot see); (f) cold starts: for every (function, version) pair, fresh child processes whose very first calls are made concurrently by 16-48 goroutines and compared with the same calls made afterwards (finds lazily initialised state published before it is complete). Binary built with -race; a race report fails the check and the workload is the replay (re-run 50x). Interleavings are sampled, not enumerated: exploration only. (i) retention: Vector() strings and parsed objects kept in a window of 4,096 per goroutine with private copies over 150k-600k further calls, sequentially and with 16 goroutines (a buffer or slot handed out twice after an offset wrapped, or at the moment a shared block is replaced). A second process runs the sequential families and the retention runs in a build WITHOUT the race detector (under -race sync.Pool drops a quarter of its entries at random, so pooled state never grows old).",
   note="Assumes the Go race detector's happens-before analysis; the scheduler is not controlled.", ref="4 C14"),
  "C15": dict(
   technique="exhaustive boundary enumeration plus property-based testing (rapid floats) against a reference scale; native fuzzing on float64 bits in the thorough tier",
-  text="All thresholds with +-1..3 ulp and small offsets, all 101 one-decimal scores in both spellings with ulp neighbours, -0, +-Inf, extremes (exhaustive list) plus 100k generated floats (uniform bits, near thresholds, ulp walks, real scores) against the five-line piecewise scale, in the three packages; errors.Is(ErrOutOfBoundsScore) and empty string outside [0,10].",
+  text="All thresholds with +-1..3 ulp and small offsets, all 101 one-decimal scores in both spellings with ulp neighbours, -0, +-Inf, extremes (exhaustive list) plus 100k generated floats (uniform bits, near thresholds, ulp walks, real scores) against the five-line piecewise scale, in the three packages; errors.Is(ErrOutOfBoundsScore) and empty string outside [0,10].  A second process runs the same check built for GOARCH=386 (32-bit int/uint) on a sampled workload with another seed.",
   note="NaN left unspecified as in the statement.", ref="4 C15"),
  "C16": dict(
   technique="exhaustive enumeration of single and paired optional metrics plus property-based testing (rapid) against a model",
-  text="Every single optional metric x every value x 10 base backgrounds (exhaustive), every pair of optional metrics, and 60k generated objects; Nomenclature compared with the rule evaluated on the model.",
+  text="Every single optional metric x every value x 10 base backgrounds (exhaustive), every pair of optional metrics, and 60k generated objects; Nomenclature compared with the rule evaluated on the model.  A second process runs the same check built for GOARCH=386 (32-bit int/uint) on a sampled workload with another seed.",
   note="Trusted base: spec.NomenclatureV4.", ref="4 C16"),
  "C17": dict(
-  technique="property-based testing (rapid) with runtime allocation counters (testing.AllocsPerRun) as the oracle",
-  text="Exhaustively every optional metric x every value, alone and with all other optional metrics defined (the shapes that expose one lenVec branch), plus 2.5k valid vectors per version per quick run, each also measured with a rejected near-miss parsed before every successful parse (a scratch buffer lost on an error path) (all subsets of optional metrics / layouts / U spellings; coverage of every optional metric and U spelling enforced); ParseVector <=1, Vector() =1, Get/Set (legal and illegal value) =0, every scoring method, Rating, Nomenclature =0 allocations. Minimum of up to 4 measurements on a miss. Own process, no race detector.",
+  technique="property-based testing (rapid) with runtime allocation counters as the oracle (testing.AllocsPerRun per case; exact runtime.MemStats totals over long call streams)",
+  text="Exhaustively every optional metric x every value, alone and with all other optional metrics defined (the shapes that expose one lenVec branch), plus 2.5k valid vectors per version per quick run, each also measured with a rejected near-miss parsed before every successful parse (a scratch buffer lost on an error path) (all subsets of optional metrics / layouts / U spellings; coverage of every optional metric and U spelling enforced); ParseVector <=1, Vector() =1, Get/Set (legal and illegal value) =0, every scoring method, Rating, Nomenclature =0 allocations. Minimum of up to 4 measurements on a miss. Own process, no race detector. Exact totals over streams with the collector off: for every (version, function) 60k calls on one vector and one call on each of 8k different objects never met before must allocate N x budget in total (slack 4, smallest of 3 measurements) - a call that allocates once in a thousand, or only the first time a value is seen, is invisible to allocs/op but not to the total.",
   note="Measured on the default toolchain go1.23.5 linux/amd64, steady state.", ref="4 C17"),
  "C18": dict(
   technique="property-based testing (rapid): single-defect injection with the expected error known by construction",
-  text="120k single-defect vectors per quick run (kind x position x metric coverage enforced) with the documented error value asserted via errors.Is / errors.As, plus Get/Set with unknown abbreviations and illegal values. One genuine deviation is recorded as known finding F3 (printed as KNOWN-FINDING, its cases counted and excluded by a matcher on the defect's kind and position); any other deviation is a violation.",
+  text="120k single-defect vectors per quick run (kind x position x metric coverage enforced) with the documented error value asserted via errors.Is / errors.As, plus Get/Set with unknown abbreviations and illegal values. One genuine deviation is recorded as known finding F3 (printed as KNOWN-FINDING, its cases counted and excluded by a matcher on the defect's kind and position); any other deviation is a violation.  A second process runs the same check built for GOARCH=386 (32-bit int/uint) on a sampled workload with another seed.",
   note="Only error classes the statement names unambiguously are asserted (see DESIGN 4 C18).", ref="4 C18"),
 }
 
